@@ -256,15 +256,14 @@ def random_op(a):
     rec = RecordingRandom(a["seed"])
     d = _random_call(a, rec)
     d["ndraws"] = len(rec.draws)
-    # the same call with a plain, equally seeded generator must give the same result
-    again = _try(lambda: _random_call(a, _r.Random(a["seed"])))
-    d["again_same"] = again["k"] == "ok" and again["v"]["val"] == d["val"]
     # the generator the caller passed is the caller's: a later call WITHOUT a generator must not draw from it
     state = rec.getstate()
-    b = dict(a)
     cls = IBAN if a["op"] == "iban.random" else BBAN
     _try(lambda: cls.random(T(a.get("country", [])), use_registry=a.get("use_registry", True)))
     d["untouched"] = rec.getstate() == state
+    # the same call with a plain, equally seeded generator must give the same result
+    again = _try(lambda: _random_call(a, _r.Random(a["seed"])))
+    d["again_same"] = again["k"] == "ok" and again["v"]["val"] == d["val"]
     return d
 
 
